@@ -58,13 +58,33 @@ static std::string full_digest(SoPlex& spx, bool withSolution = true)
       if(spx.hasPrimalRay()) { VectorReal v(nn); for(int j = 0; j < nn; ++j) v[j] = 12345.0; spx.getPrimalRay(v); for(int j = 0; j < nn; ++j) o << "," << hexd(v[j]); }
       if(spx.hasDualFarkas()) { VectorReal w(mm); for(int i = 0; i < mm; ++i) w[i] = 12345.0; spx.getDualFarkas(w); for(int i = 0; i < mm; ++i) o << "," << hexd(w[i]); }
    }
-   // tolerance wiring: the solver, the floating-point LP and the rational LP of an object use the object's OWN Tolerances object (a copy that keeps the source's object
-   // would follow the source's later parameter changes); 1 = own, 0 = foreign, - = component absent
+   // tolerance wiring: every component of an object that holds a Tolerances object at all holds the object's OWN one (a copy that keeps the source's object follows
+   // the source's later parameter changes).  The digest carries the list of components with a FOREIGN Tolerances object - empty on a sound object; components that
+   // have none yet (pricers / starters that were never selected) are not listed.
    {
       const Tolerances* own = spx.tolerances().get();
-      o << "|W" << (spx._solver.tolerances().get() == own ? 1 : 0)
-        << (spx._realLP == nullptr ? '-' : (spx._realLP->tolerances().get() == own ? '1' : '0'))
-        << (spx._rationalLP == nullptr ? '-' : (spx._rationalLP->tolerances().get() == own ? '1' : '0'));
+      std::string foreign;
+      auto wire = [&](const char* name, const Tolerances * t) { if(t != nullptr && t != own) foreign += std::string(foreign.empty() ? "" : "+") + name; };
+      wire("solver", spx._solver.tolerances().get());
+      if(spx._realLP) wire("realLP", spx._realLP->tolerances().get());
+      if(spx._rationalLP) wire("rationalLP", spx._rationalLP->tolerances().get());
+      wire("simplifier", spx._simplifierMainSM.tolerances().get());
+      wire("scalerBiequi", spx._scalerBiequi.tolerances().get());
+      wire("scalerGeo8", spx._scalerGeo8.tolerances().get());
+      wire("scalerLeastsq", spx._scalerLeastsq.tolerances().get());
+      wire("ratiotesterBoundFlipping", spx._ratiotesterBoundFlipping.tolerances().get());
+      wire("ratiotesterFast", spx._ratiotesterFast.tolerances().get());
+      wire("ratiotesterHarris", spx._ratiotesterHarris.tolerances().get());
+      wire("ratiotesterTextbook", spx._ratiotesterTextbook.tolerances().get());
+      wire("starterWeight", spx._starterWeight.tolerances().get());
+      wire("pricerAuto", spx._pricerAuto._tolerances.get());
+      wire("pricerDantzig", spx._pricerDantzig._tolerances.get());
+      wire("pricerParMult", spx._pricerParMult._tolerances.get());
+      wire("pricerDevex", spx._pricerDevex._tolerances.get());
+      wire("pricerQuickSteep", spx._pricerQuickSteep._tolerances.get());
+      wire("pricerSteep", spx._pricerSteep._tolerances.get());
+      wire("slufactor", spx._slufactor._tolerances.get());
+      o << "|W" << foreign;
    }
    // integrality information handed over by the user (read from the solver's private copy; there is no getter)
    o << "|I";
